@@ -6,6 +6,11 @@ use simcore::seams::{ev, InputMode, Log, RlMode, SimInput, SimOutput};
 use simcore::serde_tok::{Pres, SerdeFault, Tok, PRESENTATIONS, SERDE_FAULTS};
 use simcore::trace::{Fault, Reader, Record, SerdeOp, Shape, Trace, Writer};
 use std::panic::{catch_unwind, AssertUnwindSafe};
+use std::sync::atomic::{AtomicBool, Ordering};
+
+/// Skip the serde ops of every history (used to compare event digests with a build of
+/// substrate-fixed that has no serde feature).
+pub static CODEC_ONLY: AtomicBool = AtomicBool::new(false);
 
 #[derive(Clone, Debug)]
 pub struct Violation {
@@ -241,8 +246,10 @@ pub fn write_phase(table: &[Ops], t: &Trace, record: bool) -> Result<Written, Vi
         }
         spans.push((start, end));
     }
-    for (k, o) in t.serde.iter().enumerate() {
-        serde_op(table, o, k, &mut log)?;
+    if simcore::serde_tok::SERDE_ON && !CODEC_ONLY.load(Ordering::Relaxed) {
+        for (k, o) in t.serde.iter().enumerate() {
+            serde_op(table, o, k, &mut log)?;
+        }
     }
     Ok(Written { medium, spans, digest: log.digest.finish(), steps: log.steps, events: log.record })
 }
